@@ -31,6 +31,11 @@ def strip_props(d):
     return d
 
 
+def _with_open(pth, f):
+    with open(pth, encoding='utf8') as fh:
+        return f(fh)
+
+
 def job(seed):
     rng = random.Random(seed)
     spec = GD.gen_spec(rng, wild=False, max_tables=3, allow_props=True)
@@ -62,6 +67,25 @@ def job(seed):
         out['fails'].append((f'parsed content differs from the declared one at {d[0] if d else "?"}', text, True))
     if not r_on['ok']['allow_properties']:
         out['fails'].append(('resulting database does not have the option enabled', text, True))
+    # (1b) the option has the same effect on every route of the constructor that accepts it (Path, open file)
+    import os
+    import tempfile
+    from pathlib import Path
+    fd, pth = tempfile.mkstemp(suffix='.dbml')
+    try:
+        with os.fdopen(fd, 'w', encoding='utf8') as f:
+            f.write(text)
+        for route, thunk in (('Path', lambda: PyDBML(Path(pth), allow_properties=True)),
+                             ('open file', lambda: _with_open(pth, lambda fh: PyDBML(fh, allow_properties=True)))):
+            try:
+                d2 = O.dump_db(thunk())
+                if d2 != r_on['ok']:
+                    what = 'does not have the option enabled' if not d2['allow_properties'] else 'differs from the string route'
+                    out['fails'].append((f'PyDBML({route}, allow_properties=True): the resulting database {what}', text, True))
+            except Exception as e:  # noqa: BLE001
+                out['fails'].append((f'PyDBML({route}, allow_properties=True) fails although the string route accepts the document: ' + O.classify(e), text, True))
+    finally:
+        os.unlink(pth)
     # (2) disabled: the same syntax is a syntax error (when there is a property), nothing else changes otherwise
     r_off = PC.impl_parse(text, False)
     out['texts'].append((text, False, r_off))
